@@ -213,6 +213,105 @@ def concurrent_strategy():
     return st.one_of(c05.strategy("thread"), c05.strategy("async"))
 
 
+def check_shared_action(case):
+    """Two or three threads log inside one and the same action (each through its context()) under schedules of
+    eliot/_action.py at source-line or bytecode granularity: positions stay unique and contiguous."""
+    import threading
+    from .. import sched
+    from ..core import HarnessError
+    from eliot import Logger, log_message, start_action
+    from eliot._output import Destinations
+
+    saved = Logger._destinations
+    fresh = Destinations()
+    Logger._destinations = fresh
+    msgs = []
+    lock = threading.Lock()
+
+    def dest(m):
+        with lock:
+            msgs.append(dict(m))
+
+    fresh.add(dest)
+    from eliot import _action
+
+    saved_threading = _action.threading
+    # locks the action module creates are cooperative: a worker waiting for one parks at the scheduler
+    _action.threading = sched.coop_threading_module()
+    try:
+        shared = start_action(action_type="c02:shared")
+
+        def worker(tid, ops):
+            def run():
+                with shared.context():
+                    for k, op in enumerate(ops):
+                        if op == "m":
+                            log_message(message_type="c02:m", who="t%d.%d" % (tid, k))
+                        elif op == "a":
+                            with start_action(action_type="c02:child", who="t%d.%d" % (tid, k)):
+                                pass
+                        else:
+                            shared.serialize_task_id()
+
+            return run
+
+        s = sched.Scheduler(("eliot/_action.py",), case["plan"], opcodes=bool(case.get("opcodes")))
+        s.run([worker(i, ops) for i, ops in enumerate(case["threads"])])
+        shared.finish()
+    finally:
+        Logger._destinations = saved
+        _action.threading = saved_threading
+    for wid, e in s.errors.items():
+        if isinstance(e, HarnessError):
+            raise e
+        raise Violation("thread-raised", "thread %d raised %r" % (wid, e))
+    levels = {}
+    for i, m in enumerate(msgs):
+        key = (m["task_uuid"], tuple(m["task_level"]))
+        require(key not in levels, "duplicate-level", lambda: "messages %d and %d share (task_uuid, task_level) %r: %r / %r" % (levels[key], i, key, msgs[levels[key]].get("who"), m.get("who")))
+        levels[key] = i
+    reserved = sum(1 for ops in case["threads"] for op in ops if op == "s")
+    top = sorted(lvl[0] for (u, lvl) in levels if len(lvl) >= 1 and u == msgs[0]["task_uuid"])
+    used = sorted(set(top))
+    # start .. end of the shared action: 1..n with exactly `reserved` gaps (ids that were serialised but never continued)
+    require(used[0] == 1 and len(used) + reserved == used[-1], "positions-not-contiguous", lambda: "the shared action uses positions %r with %d reserved ids" % (used, reserved))
+    inside = s.switched_inside(("_nextTaskLevel", "log", "child", "_start", "finish", "serialize_task_id"))
+    return {"switches": len(s.switches), "switch_inside": len(inside), "max_depth": 2, "tasks": 1, "messages": len(msgs)}
+
+
+def classify_shared_action(case, info):
+    labels = ["threads=%d" % len(case["threads"]), "switches=%d" % min(info["switches"], 6), "granularity:bytecode" if case.get("opcodes") else "granularity:line"]
+    if info["switch_inside"]:
+        labels.append("preempted-inside-the-action's-code")
+    return info["switch_inside"] >= 1, labels
+
+
+def shared_action_strategy():
+    from .. import sched
+
+    ops = st.lists(st.sampled_from(["m", "m", "a", "s"]), min_size=1, max_size=3)
+    return st.builds(
+        lambda opc, plan, threads: sched.with_granularity({"plan": plan, "threads": threads}, opc),
+        st.sampled_from([False, False, True]),
+        sched.plans(max_segments=10, max_steps=20, workers=3),
+        st.lists(ops, min_size=2, max_size=3),
+    )
+
+
+def shared_action_enum_runner(mod, facet, tier, seed, shard, nshards, stats):
+    from ..core import enumerate_cases
+    from .. import sched
+
+    cases = []
+    for threads in ([["m"], ["m"]], [["m", "m"], ["a"]], [["s"], ["m"]]):
+        for plan in sched.single_preemption_plans(2, 40):
+            cases.append({"plan": plan, "threads": threads})
+        for k in range(0, 200 if tier == "thorough" else 120):
+            cases.append({"opcodes": True, "plan": [[k, 0], [10**6, 1]], "threads": threads})
+    stats.extra["enumerated_plans"] = len(cases)
+    enumerate_cases(mod, facet, cases, shard, nshards, stats, exhaustive=True)
+
+
 def _known_f7(facet, case, violation):
     # explicit finish() inside the action's own context + a destination that
     # rejects that end message: the report is logged after the end message
@@ -228,4 +327,6 @@ FACETS = [
     Facet("faults", faults_strategy, check_faults, classify_faults, quick=800, thorough=20000),
     Facet("colliding-names", collide_strategy, check_seq, classify_collide, quick=500, thorough=10000),
     Facet("concurrent", concurrent_strategy, check_concurrent, classify_concurrent, quick=300, thorough=5000),
+    Facet("shared-action", shared_action_strategy, check_shared_action, classify_shared_action, quick=150, thorough=5000),
+    Facet("shared-action-enum", None, check_shared_action, classify_shared_action, quick=1, thorough=1, runner=shared_action_enum_runner),
 ]
